@@ -1,12 +1,13 @@
 #!/bin/sh
 # Command under test with faults that depend on the candidate.
-# usage: faulty.sh <bugmode> <file>      bugmode: exit1 | kill9 | hang
+# usage: faulty.sh <bugmode> <file>      bugmode: exit1 | kill9 | hang | alloc
 #  - token "keep" absent                 -> prints ok, exit 0
 #  - h1 present and h2 absent            -> sleeps forever
 #  - s1 present and s2 absent            -> spins forever
 #  - k1 present and k2 absent            -> kills itself with SIGKILL
 #  - a1 present and a2 absent            -> allocates without bound
-#  - otherwise shows the "bug": exit1: prints bug, exit 1; kill9: SIGKILL itself; hang: sleeps forever
+#  - otherwise shows the "bug": exit1: prints bug, exit 1; kill9: SIGKILL itself; hang: sleeps forever;
+#    alloc: reserves 1.5 GB of address space in 50 MB steps (dies at once under a memory limit; without one it then sleeps 100 s, exit 0)
 bugmode="$1"
 for last; do :; done
 toks=$(sed 's/[()]/ & /g' "$last" | tr -s ' \t\r\n' '\n' | sed '/^$/d')
@@ -28,5 +29,10 @@ while True:
 case "$bugmode" in
   kill9) kill -9 $$ ;;
   hang) exec sleep 1000 ;;
+  alloc) exec /venv/bin/python -c "
+import mmap, time
+keep = [mmap.mmap(-1, 50 * 2**20) for _ in range(30)]
+time.sleep(100)
+" ;;
   *) echo bug; exit 1 ;;
 esac
